@@ -32,6 +32,18 @@ fn parse_script(s: &[Sexp]) -> VecDeque<P> {
     .collect()
 }
 
+thread_local! {
+  /// the scripted future / stream answered Pending during the current poll: the wake-up is its business then
+  static SRC_PENDING: std::cell::Cell<bool> = std::cell::Cell::new(false);
+  /// the task's waker was woken during the current poll
+  static WOKEN: std::cell::Cell<bool> = std::cell::Cell::new(false);
+}
+
+fn src_pending<T>() -> Poll<T> {
+  SRC_PENDING.with(|p| p.set(true));
+  Poll::Pending
+}
+
 struct ScriptStream(VecDeque<P>);
 impl Stream for ScriptStream {
   type Item = Val;
@@ -39,7 +51,7 @@ impl Stream for ScriptStream {
     loop {
       match self.0.pop_front() {
         None | Some(P::End) => return Poll::Ready(None),
-        Some(P::Pending) => return Poll::Pending,
+        Some(P::Pending) => return src_pending(),
         Some(P::Item(v)) => return Poll::Ready(Some(v)),
         Some(P::Fail(_)) => continue,
       }
@@ -53,7 +65,7 @@ impl Stream for ScriptTryStream {
   fn poll_next(mut self: Pin<&mut Self>, _: &mut Context<'_>) -> Poll<Option<Result<Val, i64>>> {
     match self.0.pop_front() {
       None | Some(P::End) => Poll::Ready(None),
-      Some(P::Pending) => Poll::Pending,
+      Some(P::Pending) => src_pending(),
       Some(P::Item(v)) => Poll::Ready(Some(Ok(v))),
       Some(P::Fail(e)) => Poll::Ready(Some(Err(e))),
     }
@@ -66,7 +78,7 @@ impl Future for ScriptFuture {
   fn poll(mut self: Pin<&mut Self>, _: &mut Context<'_>) -> Poll<Val> {
     match self.0.pop_front() {
       Some(P::Item(v)) => Poll::Ready(v),
-      _ => Poll::Pending,
+      _ => src_pending(),
     }
   }
 }
@@ -78,7 +90,7 @@ impl Future for ScriptTryFuture {
     match self.0.pop_front() {
       Some(P::Item(v)) => Poll::Ready(Ok(v)),
       Some(P::Fail(e)) => Poll::Ready(Err(e)),
-      _ => Poll::Pending,
+      _ => src_pending(),
     }
   }
 }
@@ -86,6 +98,8 @@ impl Future for ScriptTryFuture {
 enum A {
   Out(Ev),
   Ret(bool),
+  /// a poll answered Pending although the source was ready and nobody was asked to wake the task: no executor polls it again
+  LostWake,
 }
 
 struct AProbe(Arc<Mutex<Vec<A>>>);
@@ -109,7 +123,10 @@ fn noop_waker() -> Waker {
     RawWaker::new(std::ptr::null(), &VTABLE)
   }
   fn noop(_: *const ()) {}
-  static VTABLE: RawWakerVTable = RawWakerVTable::new(clone, noop, noop, noop);
+  fn wake(_: *const ()) {
+    WOKEN.with(|w| w.set(true));
+  }
+  static VTABLE: RawWakerVTable = RawWakerVTable::new(clone, wake, wake, noop);
   unsafe { Waker::from_raw(RawWaker::new(std::ptr::null(), &VTABLE)) }
 }
 
@@ -142,8 +159,12 @@ pub fn run_async(body: &[Sexp]) -> String {
       "poll" => {
         if let Some(f) = task.as_mut() {
           let mut cx = Context::from_waker(&waker);
+          SRC_PENDING.with(|p| p.set(false));
+          WOKEN.with(|w| w.set(false));
           if f.as_mut().poll(&mut cx).is_ready() {
             task = None;
+          } else if !SRC_PENDING.with(|p| p.get()) && !WOKEN.with(|w| w.get()) && sub.is_some() {
+            log.lock().unwrap().push(A::LostWake);
           }
         }
       }
@@ -168,6 +189,7 @@ pub fn run_async(body: &[Sexp]) -> String {
     match a {
       A::Out(e) => e.show(&mut s),
       A::Ret(b) => s.push_str(if *b { "(rb #t)" } else { "(rb #f)" }),
+      A::LostWake => s.push_str("(lostwake)"),
     }
   }
   s
